@@ -171,6 +171,13 @@ def run_ro(w, S, spec):
     extra = [uni, part]
     out = []
     sel = spec.get("select")
+    # user attributes under every style of name (plain, private-looking, dunder-looking): "the same set of attributes with
+    # the same values" is about these too, whatever naming scheme the library uses for its own scratch attributes
+    for k, ob in enumerate([o for o in w.O if o is not None] + [e for e in w.L if e is not None] + extra):
+        ob["colour"] = "red"
+        ob["_shade"] = k
+        ob["__tag__"] = [k]
+        ob["__weight"] = k + 0.5
     ops = ro_operations(w, S, uni)
     ops += [(n + "[part]", c, r) for n, c, r in ro_operations(w, S, part)
             if n.split("(")[0] in ("basic_render", "render_to_plantuml_src", "make_pyvis_net", "pyvis_render_customizable", "nrpickler.dumps")]
@@ -296,12 +303,21 @@ def run_snap(w, S, spec):
     def wl():
         return guarded(lambda: norm_map(w, law.edge_whitelist))
 
+    # the FIRST answer of every query in this state (with the memo on: the one computed on a miss - the list that is
+    # also put into the memo must not be the list handed to the caller); taken before anything else asks
+    first = {}
+    for name, get in getters:
+        if name.startswith(("neighbors(", "find_links(", "bft(", "dft_")):
+            try:
+                first[name] = get()
+            except Exception:
+                pass
     for name, get in getters:
         for how in MUTATIONS:
             if sel is not None and P.h(name, how, S["ends"]) % sel:
                 continue
             try:
-                cont = get()
+                cont = first.pop(name) if name in first else get()
             except Exception:
                 continue
             pre = snapshot(w, extra)
